@@ -539,6 +539,9 @@ func (d *Driver) Apply(op Op) error {
 			targets[p] = true
 		}
 	}
+	if op.Kind == "xrename" {
+		op.Kind = "rename" // cross-directory rename: an ordinary rename for model and library
+	}
 	switch op.Kind {
 	case "mkdir":
 		pi = core.Guard(func() { err = fs.Mkdir(op.Path) })
